@@ -6,6 +6,8 @@ let dispatch (v : t) : t =
   match v with
   | L (A "c18" :: args) -> Glue_c18.handle args
   | L (A "c16" :: args) -> Glue_c16.handle args
+  | L (A "c02" :: args) -> Glue_c02.handle args
+  | L (A "c01" :: args) -> Glue_c01.handle args
   | _ -> raise (Parse_error "unknown property")
 
 let () =
